@@ -25,15 +25,20 @@ ToNat(str) == CHOOSE n \in 0..200 : ToString(n) = str
 K == [fee |-> ToNat(IOEnv.PM_FEE), pct |-> ToNat(IOEnv.PM_PCT),
       revokeValidates |-> IOEnv.PM_REVOKE_VALIDATES = "true"]
 
-Same(r, q) == r.ra = q.ra /\ r.rb = q.rb /\ r.post = q.post
+\* post = projection onto Payments' variables (per-hash ledger included); postx = the node's balance
+\* bookkeeping that policy.enforce_balance maintains (excess_amount)
+Same(r, q) == r.ra = q.ra /\ r.rb = q.rb /\ r.post = q.post /\ r.postx = q.postx
 LinImpl(r) == Same(r, r.sab) \/ Same(r, r.sba)
 
 \* the requests carry the commitment number the harness fixed at the start state ("n"): drop it
-Req(x) == [f \in (DOMAIN x) \ {"n"} |-> x[f]]
+\* (and "via", the channel a preimage is reported through, which the ledger does not depend on)
+Req(x) == [f \in (DOMAIN x) \ {"n", "via"} |-> x[f]]
 SpecOrder(pre, x, y) == LET o1 == Step(pre, Req(x), K) o2 == Step(o1.s, Req(y), K) IN <<o1.resp, o2.resp, o2.s>>
 \* two requests on one channel carry the SAME number, which the model (always the next number) does not describe
 SameChan(r) == "ch" \in DOMAIN r.a /\ "ch" \in DOMAIN r.b /\ r.a.ch = r.b.ch
-LinSpec(r) == \/ SameChan(r)
+\* (Payments.tla does not model the balance register: runs under enforce_balance are compared with the
+\* implementation's own sequential outcomes only)
+LinSpec(r) == \/ SameChan(r) \/ r.enforce
               \/ SpecOrder(r.pre, r.a, r.b) = <<r.ra, r.rb, r.post>>
               \/ SpecOrder(r.pre, r.b, r.a) = <<r.rb, r.ra, r.post>>
 
